@@ -21,6 +21,7 @@ RULE = ('cases = Finnis-Sinclair models over every ordered subset of 1..3 (thoro
         'route {class, procedural writer, Configuration.read, potable}; injective density code per ordered pair; every case executed; '
         'two oracles per case: slot-by-slot equality and per-atom densities of three toy clusters computed from the file by the '
         'consumer rule; non-trivial = >= 2 species')
+RULE += '; label / foreign-pair models as C03, multi-range density definitions of three shapes, density dictionaries with extra species, lazily computed density mappings (a fresh callable per look-up), comments= / title= options, a density set through the objects after Configuration.read, [Species] layouts'
 ASSUMPTIONS = [
     'consumer rules for eam/fs, EEAM and Excel as stated in the module docstring (LAMMPS / DL_POLY manuals, repo tests validated against the binaries)',
     'potable A->B means central A, neighbour B (docs/user_guide/many_body_models.rst: ALPHA central, BETA surrounding)',
